@@ -117,7 +117,8 @@ def rand_gate2(rng, a, b, pool):
 def gen_spec(rng, tier, it):
     nmax = 5 if tier == "quick" else 6
     n = int(rng.choice(range(1, nmax + 1), p=([0.06, 0.2, 0.28, 0.26, 0.2] if nmax == 5 else [0.05, 0.15, 0.22, 0.22, 0.2, 0.16])))
-    form = ["dict_explicit", "dict_auto", "single_cut_gates", "single_pcq"][int(rng.choice(4, p=[0.45, 0.2, 0.2, 0.15]))]
+    form = ["dict_explicit", "dict_auto", "single_cut_gates", "single_pcq", "dict_marked"][int(rng.choice(5, p=[0.42, 0.17, 0.18, 0.13, 0.1]))]
+    by_ids = form in ("single_cut_gates", "dict_marked")    # cuts are chosen by gate index through cut_gates
     # idle qubits
     idle = []
     if n >= 2 and rng.integers(0, 10) < 4:
@@ -132,7 +133,7 @@ def gen_spec(rng, tier, it):
     for i, q in enumerate(rng.permutation(active)):
         group_of[int(q)] = i if i < ng else int(rng.integers(0, ng))
     # idle qubits: label None (discarded) or, sometimes, a real label (kept as an empty partition / part of one)
-    idle_kept = [q for q in idle if rng.integers(0, 4) == 0 and form != "dict_auto"]
+    idle_kept = [q for q in idle if rng.integers(0, 4) == 0 and form not in ("dict_auto", "dict_marked")]
     labels = []
     for q in range(n):
         if q in idle:
@@ -160,8 +161,8 @@ def gen_spec(rng, tier, it):
         r = rng.integers(0, 10)
         if r < 4 and active:
             gates.append(rand_gate1(rng, int(active[int(rng.integers(0, len(active)))])))
-        elif r < 7 and (same_pairs if form != "single_cut_gates" else any_pairs):
-            prs = same_pairs if form != "single_cut_gates" else any_pairs
+        elif r < 7 and (same_pairs if not by_ids else any_pairs):
+            prs = same_pairs if not by_ids else any_pairs
             a, b = prs[int(rng.integers(0, len(prs)))]
             gates.append(rand_gate2(rng, a, b, LIGHT2 + HEAVY2))
         elif r < 8 and active:
@@ -176,7 +177,7 @@ def gen_spec(rng, tier, it):
             gates.append(rand_gate1(rng, int(active[int(rng.integers(0, len(active)))])))
     # insert the cut gates at random positions
     cut_positions = []
-    pairs_for_cut = cross_pairs if form != "single_cut_gates" else any_pairs
+    pairs_for_cut = cross_pairs if not by_ids else any_pairs
     for _ in range(ncuts_wanted):
         if not pairs_for_cut:
             break
@@ -252,6 +253,12 @@ def run_pipeline(spec):
             if form == "dict_explicit":
                 qc = build_circuit(spec, False)
                 prob = partition_problem(qc, labels, observables)
+            elif form == "dict_marked":
+                # cuts marked through cut_gates, then separated with automatic labels
+                qc = build_circuit(spec, False)
+                ids = [i for i, g in enumerate(spec["gates"]) if g.get("cut")]
+                marked, _ = cut_gates(qc, ids)
+                prob = partition_problem(marked, None, observables)
             else:
                 qc = build_circuit(spec, True)
                 prob = partition_problem(qc, None, observables)
@@ -367,7 +374,7 @@ def idle_qubits(spec):
     touched = set()
     for g in spec["gates"]:
         touched.update(g["qubits"])
-    if spec["form"] == "dict_auto":
+    if spec["form"] in ("dict_auto", "dict_marked"):
         return [q for q in range(spec["n"]) if q not in touched]
     if spec["form"] == "dict_explicit":
         return [q for q in range(spec["n"]) if untag(spec["labels"][q]) is None]
@@ -458,6 +465,7 @@ def one_case(w, spec):
     w.add("roundtrip", "chk_roundtrip", coq_case(spec, impl, numbers_ok), js,
           nontrivial=(impl["outcome"] == "ok" and ncuts >= 1) or impl["outcome"] == "refused")
     w.count("form", spec["form"])
+    w.count("stream", spec.get("stream", "fixed" if spec.get("it") == -1 else "uniform"))
     w.count("outcome", impl["outcome"])
     w.count("qubits", spec["n"])
     w.count("cuts", ncuts if impl["outcome"] == "ok" else "n/a")
@@ -506,22 +514,145 @@ def fixed_specs():
     return specs
 
 
+SIX_MAP_GATES = [("rzz", [0.9]), ("rxx", [0.4]), ("ryy", [0.7]), ("cx", []), ("cz", []), ("cy", []), ("ch", []),
+                 ("crx", [0.8]), ("cry", [1.3]), ("crz", [1.1]), ("cp", [0.6]), ("csx", []), ("cs", []), ("ecr", [])]
+ASYMMETRIC_GATES = [("cx", []), ("cy", []), ("ch", []), ("crx", [0.8]), ("cry", [1.3]), ("csx", []), ("ecr", []),
+                    ("dcx", []), ("cs", [])]
+EXOTIC = [(1, 2), 3.5, "foo", frozenset([1]), -7, "", ("a", 0), True]
+
+
+def _rot_layer(rng, qubits):
+    """Generic one-qubit rotations so that every Pauli expectation is sensitive to what follows."""
+    out = []
+    for q in qubits:
+        out.append(dict(name="ry", params=[float(rng.uniform(0.3, 1.2))], qubits=[q]))
+        out.append(dict(name="rx", params=[float(rng.uniform(0.3, 1.2))], qubits=[q]))
+    return out
+
+
+def _g2(nm_params, a, b, cut=False):
+    g = dict(name=nm_params[0], params=list(nm_params[1]), qubits=[a, b])
+    if cut:
+        g["cut"] = True
+    return g
+
+
+def _dense_obs(rng, n, k, idle=()):
+    obs = []
+    for _ in range(k):
+        lets = [int(rng.integers(1, 4)) for _ in range(n)]
+        for q in idle:
+            lets[q] = 0
+        obs.append(lets)
+    return obs
+
+
+def targeted_specs(rng, tier):
+    """Streams aimed at bookkeeping that the uniform stream reaches only rarely (each found by a seeded change)."""
+    T = tagged
+    specs = []
+    rep = 1 if tier == "quick" else 4
+    # (a) order of `bases` against the cut ids: >= 3 partitions, cut 0 between partitions that are NOT the first one
+    #     in dict order, a later cut touching the first partition, different gates with equally many maps
+    for i in range(12 * rep):
+        nparts = 3 if i % 3 else 4
+        two = bool(i % 2)                                  # first partition has two qubits
+        sizes = [2 if (two and p == 0) else 1 for p in range(nparts)]
+        part_of = [p for p, sz in enumerate(sizes) for _ in range(sz)]
+        n = len(part_of)
+        first_q = [part_of.index(p) for p in range(nparts)]
+        if i % 4 == 0:
+            names = list(range(nparts))                    # what automatic labelling would give
+        elif i % 4 == 1:
+            names = ["A", "B", "C", "D"][:nparts]
+        else:
+            names = [EXOTIC[int(j)] for j in rng.permutation(len(EXOTIC))[:nparts]]
+        labels = [names[p] for p in part_of]
+        gsel = [SIX_MAP_GATES[int(j)] for j in rng.permutation(len(SIX_MAP_GATES))[:3]]
+        gates = _rot_layer(rng, range(n))
+        if two:
+            gates.append(_g2(("cx", []), 0, 1))
+        b, c = first_q[1], first_q[2]
+        gates.append(_g2(gsel[0], *( (b, c) if rng.integers(0, 2) else (c, b) )))          # cut 0: B - C
+        other = first_q[int(rng.integers(1, nparts))]
+        a = int(rng.integers(0, sizes[0]))
+        gates += _rot_layer(rng, [b, c])
+        gates.append(_g2(gsel[1], *( (a, other) if rng.integers(0, 2) else (other, a) )))  # cut 1: A - x
+        if nparts == 4 and rng.integers(0, 2):
+            gates.append(_g2(gsel[2], first_q[3], first_q[1]))                                # cut 2: D - B
+        gates += _rot_layer(rng, range(n))
+        obs = _dense_obs(rng, n, 3) + [[3] * n]
+        specs.append(dict(kind="roundtrip", it=-2, n=n, form="dict_explicit", gates=gates,
+                          labels=[T(l) for l in labels], obs=obs, idle=[], stream="bases_order"))
+    # (b) X-only observables on a discarded idle qubit (true value 0; must be refused or answered with 0)
+    for i in range(8 * rep):
+        n = 3 + (i % 2)
+        idle = [int(rng.integers(0, n))]
+        act = [q for q in range(n) if q not in idle]
+        gates = _rot_layer(rng, act) + [_g2(SIX_MAP_GATES[int(rng.integers(0, len(SIX_MAP_GATES)))], act[0], act[1], cut=True)]
+        gates += _rot_layer(rng, act)
+        form = ["dict_explicit", "dict_auto", "dict_marked"][i % 3]
+        labels = [None if q in idle else ("L", act.index(q)) for q in range(n)]
+        if len(act) == 3:
+            labels[act[2]] = labels[act[1]]
+            gates.append(_g2(("cz", []), act[1], act[2]))
+        obs = []
+        for _ in range(1 + i % 3):
+            lets = [3 if rng.integers(0, 3) else int(rng.integers(0, 4)) for _ in range(n)]
+            lets[idle[0]] = 1 if rng.integers(0, 4) else 0
+            obs.append(lets)
+        obs[0][idle[0]] = 1
+        specs.append(dict(kind="roundtrip", it=-2, n=n, form=form, gates=gates, labels=[T(l) for l in labels],
+                          obs=obs, idle=idle, stream="idle_x_only"))
+    # (c) asymmetric gates with DESCENDING operands cut through cut_gates: unseparated, and marked + partition_problem
+    for i in range(10 * rep):
+        n = 3
+        hi, lo = (2, 1) if i % 3 else (1, 0)
+        g1 = ASYMMETRIC_GATES[int(rng.integers(0, len(ASYMMETRIC_GATES)))]
+        gates = _rot_layer(rng, range(n)) + [_g2(g1, hi, lo, cut=True)] + _rot_layer(rng, [hi, lo])
+        if i % 2:
+            gates.append(_g2(SIX_MAP_GATES[int(rng.integers(0, len(SIX_MAP_GATES)))], lo, hi, cut=bool(i % 4 == 1)))
+        rest = [q for q in range(n) if q not in (hi, lo)][0]
+        gates.append(_g2(("cz", []), rest, hi if rest > hi else lo))
+        gates += _rot_layer(rng, range(n))
+        specs.append(dict(kind="roundtrip", it=-2, n=n, form=("single_cut_gates" if i % 2 == 0 else "dict_marked"),
+                          gates=gates, labels=[T(0)] * n, obs=_dense_obs(rng, n, 3) + [[3, 3, 3]], idle=[],
+                          stream="descending_cut_gates"))
+    # (d) a measured X / Y above an identity (or Z) inside one partition: clbit index != qubit index
+    for i in range(8 * rep):
+        n = 4
+        labels = ["A", "A", "A", "B"] if i % 2 == 0 else [0, 0, 1, 1]
+        gates = _rot_layer(rng, range(n)) + [_g2(("cx", []), 0, 1)]
+        gates.append(_g2(("cz", []), 1, 2) if i % 2 == 0 else _g2(("cx", []), 2, 3))
+        gates.append(_g2(SIX_MAP_GATES[int(rng.integers(0, len(SIX_MAP_GATES)))], 1, 2) if i % 2 else _g2(("rzz", [0.9]), 2, 3))
+        gates += _rot_layer(rng, range(n))
+        obs = [[0, 2, 0, 0], [0, 0, 2, 3] if i % 2 == 0 else [0, 2, 0, 2], [0, 3, 1, 0], [0, 1, 0, 1], [3, 0, 2, 1]]
+        form = ["dict_explicit", "single_pcq"][(i // 2) % 2]
+        specs.append(dict(kind="roundtrip", it=-2, n=n, form=form, gates=gates, labels=[T(l) for l in labels],
+                          obs=obs, idle=[], stream="measured_above_identity"))
+    return specs
+
+
 def generate(rng, tier, outdir):
     w = CaseWriter(outdir, IMPORTS, CASE_TYPES)
     w.SHARD = 16  # the structural check enumerates the whole product space: keep shards small, they run in parallel
     # deterministic budget: a number of requests and a cap on the total number of subexperiments simulated
     max_cases = 200 if tier == "quick" else 1200
-    max_circuits = 14000 if tier == "quick" else 150000
+    max_circuits = 17000 if tier == "quick" else 170000
     t0 = time.time()
     ncirc = 0
     for spec in fixed_specs():
         ncirc += one_case(w, spec)
+    ntarget = 0
+    for spec in targeted_specs(rng, tier):
+        ncirc += one_case(w, spec)
+        ntarget += 1
     it = 0
     while it < max_cases and ncirc < max_circuits:
         spec = gen_spec(rng, tier, it)
         ncirc += one_case(w, spec)
         it += 1
-    w.notes.append(f"{it} generated requests + {len(fixed_specs())} fixed ones, {ncirc} subexperiments simulated, {time.time() - t0:.1f}s")
+    w.notes.append(f"{it} generated requests + {ntarget} targeted + {len(fixed_specs())} fixed ones, {ncirc} subexperiments simulated, {time.time() - t0:.1f}s")
     return w.finish(
         rule="random circuits on 1..5 (thorough: 6) qubits from every supported two-qubit gate family (registered names at special, "
              "rational-circle, tiny and generic angles; rzx, xx_plus_yy, xx_minus_yy and Haar-random 4x4 unitaries through the KAK "
@@ -529,8 +660,12 @@ def generate(rng, tier, outdir):
              "partitions with exotic hashable labels, automatic labels (user-placed TwoQubitQPDGates), idle qubits labelled None / "
              "automatically / kept under a real label; 1..5 Pauli observables with duplicates, identity, mixed letters, sometimes "
              "non-identity on an idle qubit (refusal stream); 0..3 cuts between any pairs of partitions under a cap on the number "
-             "of sampled joint maps (300 quick, 2600 thorough; three cuts only with the cx family in quick); call forms dict "
+             "of sampled joint maps (300 quick, 2600 thorough; three cuts only with the cx family in quick); call forms dict (also cut_gates followed by partition_problem with automatic labels) "
              "(partition_problem, explicit or automatic labels) and unseparated (cut_gates, partition_circuit_qubits). "
+             "Targeted streams (about 40 requests): >= 3 partitions with cut 0 away from the first partition and different "
+             "six-map gates (order of `bases` against the cut ids); X-only observables on a discarded idle qubit; asymmetric "
+             "gates with descending operands cut through cut_gates (unseparated and marked + partition_problem); measured X/Y "
+             "above an identity inside a partition. "
              "distinct = distinct Coq case literal; non-trivial = at least one cut reconstructed, or a refusal",
     )
 
